@@ -35,6 +35,8 @@ def eval_tree(tree, env, t=0.0, vol=1.0, mp=None, track=None):
             if not math.isfinite(a):
                 raise Undefined("non-finite intermediate")
             track["maxabs"] = max(track.get("maxabs", 0.0), a)
+            if v != 0:
+                track["minabs"] = min(track.get("minabs", math.inf), abs(v))
         return v
 
     conv = (lambda x: mp.mpf(x)) if mp is not None else float
@@ -254,3 +256,61 @@ def rhs(spec, state, t=0.0, mode="det", vol=1.0, params=None):
     S, Sd = stoich(spec)
     rates = [rate(spec, rx, state, t, mode, vol, params) for rx in spec["reactions"]]
     return {s: sum((S[s][j] + Sd[s][j]) * rates[j] for j in range(len(rates))) for s in spec["species"]}
+
+
+# ---------------------------------------------------------------------------------------------------
+# precedence-aware printer (minimal parentheses): python/sympy precedence, which bioscrape's parser follows
+_ATOMS = ("num", "sym", "t", "vol", "exp", "log", "abs", "step", "min", "max")
+
+
+def show_min(tree, pow_op="^", step_name="Heaviside", rename=None, sp=" "):
+    def s(x):
+        return show_min(x, pow_op, step_name, rename, sp)
+
+    def par(x):
+        return "(" + s(x) + ")"
+
+    def atom(x):
+        if x[0] == "num":
+            txt = x[2] if len(x) > 2 else _num_str(x[1])
+            return not txt.startswith("-")
+        return x[0] in _ATOMS
+
+    op = tree[0]
+    if op in ("num", "sym", "t", "vol", "exp", "log", "abs", "step", "min", "max"):
+        if op in ("exp", "log", "abs"):
+            return f"{op}({s(tree[1])})"
+        if op == "step":
+            return f"{step_name}({s(tree[1])})"
+        if op in ("min", "max"):
+            return f"{op}(" + f",{sp}".join(s(a) for a in tree[1:]) + ")"
+        return show(tree, pow_op, step_name, rename)
+    if op == "add":
+        parts = [s(tree[1]) if tree[1][0] != "neg" or True else par(tree[1])]
+        for a in tree[2:]:
+            parts.append(par(a) if a[0] in ("neg",) or (a[0] == "num" and not atom(a)) else s(a))
+        return f"{sp}+{sp}".join(parts)
+    if op == "sub":
+        left = s(tree[1])
+        right = par(tree[2]) if tree[2][0] in ("add", "sub", "neg") or not (tree[2][0] != "num" or atom(tree[2])) else s(tree[2])
+        return f"{left}{sp}-{sp}{right}"
+    if op == "mul":
+        parts = []
+        for i, a in enumerate(tree[1:]):
+            need = a[0] in ("add", "sub") or (i > 0 and a[0] in ("neg", "div")) or (a[0] == "num" and not atom(a) and i > 0)
+            parts.append(par(a) if need else s(a))
+        return f"{sp}*{sp}".join(parts)
+    if op == "div":
+        a, b = tree[1], tree[2]
+        left = par(a) if a[0] in ("add", "sub") else s(a)
+        right = par(b) if b[0] in ("add", "sub", "mul", "div", "neg") or (b[0] == "num" and not atom(b)) else s(b)
+        return f"{left}{sp}/{sp}{right}"
+    if op == "neg":
+        a = tree[1]
+        return "-" + (s(a) if atom(a) or a[0] == "pow" else par(a))
+    if op == "pow":
+        a, b = tree[1], tree[2]
+        base = s(a) if atom(a) else par(a)
+        expo = s(b) if atom(b) else par(b)
+        return f"{base}{pow_op}{expo}"
+    raise ValueError(op)
